@@ -8,7 +8,7 @@ import random
 
 from migen import *
 
-from litedram.phy.lpddr4.simphy import LPDDR4SimPHY
+from litedram.phy.lpddr4.simphy import LPDDR4SimPHY, DoubleRateLPDDR4SimPHY
 from litedram.phy.lpddr5.simphy import LPDDR5SimPHY
 
 from ..engine import Sim
@@ -151,9 +151,16 @@ def l4_expected(cmd, masked):
 def run_l4(scn):
     d = scn["dut"]
     masked, ext = d["masked_write"], d["extended"]
-    phy = LPDDR4SimPHY(sys_clk_freq=50e6, masked_write=masked, extended_overlaps_check=ext)
     P = 8000
-    sim = Sim(phy, {"sys": {"period": P, "phase": 0}, "sys8x": {"period": P // 8, "phase": 0}})
+    clocks = {"sys": {"period": P, "phase": 0}, "sys8x": {"period": P // 8, "phase": 0}}
+    if d.get("double_rate"):
+        # 16:8 serialisation sys -> sys2x inside the PHY, 4:1 sys2x -> sys8x in the simulation wrapper; serialiser counters start
+        # aligned with the divided clock (serdes_reset_cnt=-1, as the project's own double-rate bench does: no reset sequence here)
+        phy = DoubleRateLPDDR4SimPHY(sys_clk_freq=50e6, masked_write=masked, extended_overlaps_check=ext, serdes_reset_cnt=-1)
+        clocks["sys2x"] = {"period": P // 2, "phase": 0}
+    else:
+        phy = LPDDR4SimPHY(sys_clk_freq=50e6, masked_write=masked, extended_overlaps_check=ext)
+    sim = Sim(phy, clocks)
     viol = Violations(sim)
     ix = sim.index
     S = sim.S
@@ -231,7 +238,7 @@ def run_l4(scn):
         else:
             viol.add("ca_sequence", r)
     return {"violations": viol.v, "stats": stats, "cycles": ncyc * 9, "sim_ps": sim.now, "digest": sim.digest(),
-            "nontrivial": len(got) >= 2, "states": ["l4 m%d e%d" % (int(masked), int(ext))],
+            "nontrivial": len(got) >= 2, "states": ["l4 m%d e%d d%d" % (int(masked), int(ext), int(bool(d.get("double_rate"))))],
             "summary": {"variant": "lpddr4", "dut": d, "cmds": len(cmds), "decoded": len(got)}}
 
 
@@ -489,4 +496,6 @@ def gen(rng, tier, index):
             t += rng.choice([4, 4, 4, 5])
         else:
             t += rng.choice([1, 2, 3, 4, 4, 5, 7])
+    if rng.random() < 0.35:
+        d["double_rate"] = True
     return {"variant": "lpddr4", "dut": d, "cmds": cmds}
